@@ -159,8 +159,10 @@ func (t *List) CoerceOut(v interface{}) (interface{}, error) {
 //   ofType: __Type
 func (t *List) Resolve(field *Field, args map[string]interface{}) (interface{}, error) {
 	switch field.Name {
-	case kindStr, descriptionStr:
+	case kindStr:
 		return "LIST", nil
+	case descriptionStr:
+		return nil, nil
 	case nameStr:
 		return t.Name(), nil
 	case ofTypeStr:
